@@ -51,6 +51,8 @@ ASSUMPTIONS = [
 ]
 BOUNDS = {
     'quick': {'scopes_R': [0, 1, 2], 'rules_per_scope_K': [1, 2],
+              'query before the update': 'states with <= 2 rules (thorough: '
+                                         'all)',
               'load_list_length': [0, 1, 2, 3],
               'histories': 'any length over states within the bound (one '
                            'inductive step from an arbitrary valid state)'},
@@ -264,7 +266,7 @@ def res_eq(got, want):
 # ---------------------------------------------------------------------------
 # harnesses
 # ---------------------------------------------------------------------------
-def h_step(shape, fix=None):
+def h_step(shape, fix=None, prequery=True):
   R = len(shape)
   regex_domain = [f'r{i}' for i in range(R + 1)]
 
@@ -277,6 +279,15 @@ def h_step(shape, fix=None):
       alg = SymTok.fresh('new_alg', ALGS)
       cfg = SymTok.fresh('new_cfg', CFGS)
 
+      # a query BEFORE the update: resolution is a pure function of the rule
+      # list, so it must neither disturb the state nor influence any later
+      # resolution (e.g. through a cache)
+      if prequery:
+        target0 = SymTok.fresh('target_op_before', OPS)
+        e.assume(target0.z != 0)
+        got0 = rm.get_quantization_configs(target0, 'scope')
+        e.check('C11.resolve.last_applicable_rule_wins',
+                res_eq(got0, ref_resolve(model, target0)))
       raised = False
       try:
         rm.add_quantization_config(regex, op, cfg, alg)
@@ -394,7 +405,7 @@ def job_step(job):
   shape = tuple(job.args['shape'])
   en = _ModelEngine(solver_timeout_ms=20000, max_paths=400000,
                     shard=job.args.get('shard'))
-  en.explore(h_step(shape))
+  en.explore(h_step(shape, prequery=job.args.get('prequery', True)))
   tag = 'step/' + ','.join(map(str, shape))
   r = result_from_engines(job.name, [(tag, en)], _to_candidate)
   r.samples = [f'arbitrary valid state with rule counts per scope {shape}; '
@@ -426,7 +437,8 @@ def jobs(tier, seed):
         D = {3: 4, 4: 6}.get(sum(shape), 8)
         for sh in range(2 ** D):
           js.append(Job('step:' + ','.join(map(str, shape)) + f':shard{sh}',
-                        job_step, {'shape': list(shape), 'shard': (sh, D)}))
+                        job_step, {'shape': list(shape), 'shard': (sh, D),
+                                   'prequery': tier == 'thorough'}))
       else:
         js.append(Job('step:' + ','.join(map(str, shape)), job_step,
                       {'shape': list(shape)}))
@@ -532,6 +544,13 @@ def replay(c):
       regex = regexes[d['new_regex']]
       op, alg, cfg = (OPS[d['new_op']], ALGS[d['new_alg']],
                       cfgs[d['new_cfg']])
+      if 'target_op_before' in d:
+        t0 = OPS[d['target_op_before']]
+        g0 = rm.get_quantization_configs(t0, scope)
+        w0 = ref_res_c(model, t0)
+        if (g0[0], g0[1]) != w0:
+          bad = True
+          what.append(f'pre-update resolve({t0.value}) = {g0}, reference {w0}')
       raised = False
       try:
         rm.add_quantization_config(regex, op, cfg, alg)
